@@ -1,4 +1,4 @@
-"""pyvc.frame_scan -- mechanical check of the frame assumption behind 'opaque' calls.
+"""pvc.frame_scan -- mechanical check of the frame assumption behind 'opaque' calls.
 
 Every syntactic write to a tracked attribute name anywhere in /repo/redun (outside tests)
 must lie in a function that is under contract for that attribute (or in an explicitly
